@@ -20,6 +20,7 @@
 #define PK_RUNLEN(c) ((int32)(((c) & 0x7fu) + 3))
 #define PK_MIXLEN(c) ((int32)(((c) & 0x7fu) + 1))
 
+typedef long long h4v_i64;
 /* ------------------------------- ghost state ------------------------------- */
 int32    g_aid;         /* the access id the coder owns */
 int32    g_io_n;        /* number of I/O calls so far */
@@ -38,7 +39,7 @@ unsigned g_val;         /* ... and decodes to this byte */
 int      g_rst;         /* as g_wst */
 unsigned g_rcnt;
 int32    g_rneed;
-int32    g_dpos;        /* number of stream bytes the packets fetched so far decode to */
+h4v_i64  g_dpos;        /* number of stream bytes the packets fetched so far decode to */
 int      g_have;        /* the packet covering g_k has been fetched (g_exp is then defined by it) */
 /* ghost byte store ("disk") */
 uint8   *g_disk;
@@ -313,7 +314,7 @@ static int32 HCIcrle_encode(compinfo_t *info, int32 length, const uint8 *buf)
     __CPROVER_requires(info != NULL && info->aid == g_aid && ENC_WF(RI(info)))
     __CPROVER_requires(length >= 0 && RF(info, offset) >= 0 && length <= 0x7fffffff - RF(info, offset))
     /* no packet half written; everything consumed so far is either emitted or pending */
-    __CPROVER_requires(g_wst == 0 && g_emit >= 0 && g_emit + PENDING(RI(info)) == RF(info, offset))
+    __CPROVER_requires(g_wst == 0 && g_emit >= 0 && g_emit == RF(info, offset) - PENDING(RI(info)))
     __CPROVER_requires(g_k >= 0 && ENC_CODED(RI(info)))
     /* g_exp is the input byte at stream position g_k, if this call supplies it */
     __CPROVER_requires((g_k >= RF(info, offset) && g_k - RF(info, offset) < length) ==> buf[g_k - RF(info, offset)] == g_exp)
@@ -329,13 +330,13 @@ static int32 HCIcrle_encode(compinfo_t *info, int32 length, const uint8 *buf)
     __CPROVER_ensures(__CPROVER_return_value == SUCCEED ==> g_wst == 0)
     /* offset accounting; sum of decoded packet lengths + pending == bytes consumed */
     __CPROVER_ensures(__CPROVER_return_value == SUCCEED ==> RF(info, offset) == __CPROVER_old(RF(info, offset)) + length)
-    __CPROVER_ensures(__CPROVER_return_value == SUCCEED ==> g_emit + PENDING(RI(info)) == RF(info, offset))
+    __CPROVER_ensures(__CPROVER_return_value == SUCCEED ==> g_emit == RF(info, offset) - PENDING(RI(info)))
     /* the byte at g_k is what the packets decode to there, or still pending in the state */
     __CPROVER_ensures(__CPROVER_return_value == SUCCEED ==> ENC_CODED(RI(info)));
 
 static int32 HCIcrle_term(compinfo_t *info)
     __CPROVER_requires(info != NULL && info->aid == g_aid && ENC_WF(RI(info)))
-    __CPROVER_requires(g_wst == 0 && g_emit >= 0 && RF(info, offset) >= 0 && g_emit + PENDING(RI(info)) == RF(info, offset))
+    __CPROVER_requires(g_wst == 0 && g_emit >= 0 && RF(info, offset) >= 0 && g_emit == RF(info, offset) - PENDING(RI(info)))
     __CPROVER_requires(g_k >= 0 && ENC_CODED(RI(info)))
     __CPROVER_assigns(RF(info, rle_state), RF(info, last_byte), RF(info, second_byte),
                       g_wst, g_wcnt, g_wneed, g_emit, g_got, g_val, g_io_n, g_io_failed, g_sink, g_dp, g_disk_n;
@@ -395,6 +396,7 @@ static int32 HCIcrle_init(accrec_t *access_rec)
 H4V_DECL_ND(int32);
 H4V_DECL_ND(int);
 H4V_DECL_ND(unsigned);
+H4V_DECL_ND(h4v_i64);
 
 static void
 havoc_ghosts(void)
@@ -414,7 +416,7 @@ havoc_ghosts(void)
     H4V_HAVOC(int, g_rst);
     H4V_HAVOC(unsigned, g_rcnt);
     H4V_HAVOC(int32, g_rneed);
-    H4V_HAVOC(int32, g_dpos);
+    H4V_HAVOC(h4v_i64, g_dpos);
     H4V_HAVOC(int, g_have);
     H4V_ASSUME(g_io_n >= 0 && g_io_n < 1000000);
     g_disk     = NULL;
@@ -442,7 +444,7 @@ mk_info(void)
     RF(info, second_byte) = st_second;
 #if defined(H4V_CEX) || defined(H4V_NATIVE)
     /* counterexample mode: only the first 8 buffer bytes are named inputs */
-    H4V_ASSUME(st_state != RLE_MIX || (st_buf_length <= 8 && st_buf_pos <= 8 - st_buf_length));
+    H4V_ASSUME(st_state != RLE_MIX || (st_buf_length >= 0 && st_buf_length <= 8 && st_buf_pos <= 8 - st_buf_length));
     H4V_ND_BUF(uint8, rb, 8, 8);
     memset(RF(info, buffer), 0, 128);
     memcpy(RF(info, buffer), rb, 8);
